@@ -1072,8 +1072,27 @@ func (a *Analysis) ruleOpValidity() {
 			a.add("C13", "C13.overlap", shape, "%s", msg)
 			a.add("C08", "C08.found", shape, "%s", msg)
 			a.add("C15", "C15.classes", shape, "%s", msg)
-			if pv, ok := m.Reg.Services[op.Op.Id]; ok && kind == OpResolve && m.regs[pv.Reg].Life == LSingleton && a.buildOK && !a.anyFault() && !overlap {
-				a.add("C01", "C01.same", regShape(m.regs[pv.Reg])+"/unresolvable", "op%d %s: singleton identity %s (r%d output %d) of a successfully built provider cannot be obtained: %v", op.GID, op.Op, op.Op.Id, pv.Reg, pv.OutIdx, firstLine(op.Err))
+			if a.buildOK && !a.anyFault() && !overlap {
+				// fault-free, no Close in sight: every way of obtaining a registered singleton / scoped
+				// service yields its instance - an error is not "the same instance"
+				var provs []Provision
+				if pv, ok := m.Reg.Services[op.Op.Id]; ok && kind == OpResolve {
+					provs = append(provs, pv)
+				}
+				if kind == OpResolveGroup {
+					provs = append(provs, m.Reg.Groups[Ident{T: op.Op.Id.T, Group: op.Op.Id.Group}]...)
+				}
+				seenC01, seenC02 := false, false
+				for _, pv := range provs {
+					switch r := m.regs[pv.Reg]; {
+					case r.Life == LSingleton && !seenC01:
+						seenC01 = true
+						a.add("C01", "C01.same", regShape(r)+"/unresolvable", "op%d %s: singleton identity %s (r%d output %d) of a successfully built provider cannot be obtained: %v", op.GID, op.Op, pv.Id, pv.Reg, pv.OutIdx, firstLine(op.Err))
+					case r.Life == LScoped && !seenC02:
+						seenC02 = true
+						a.add("C02", "C02.one", regShape(r)+"/unresolvable", "op%d %s: scoped identity %s (r%d output %d) cannot be obtained in this scope: %v", op.GID, op.Op, pv.Id, pv.Reg, pv.OutIdx, firstLine(op.Err))
+					}
+				}
 			}
 		}
 	}
